@@ -2,8 +2,11 @@
 Only the public interface is used (constructor arguments, is_in_range, restart, make_absolute, intersect,
 parse); private attributes are read with getattr for the advisory state column and 'NA' when absent.
 Times are integers on a 1/8 s grid -> exact binary64 values."""
+import copy
 import math
 import sys
+
+import numpy as np
 
 from fusion_engine_client.messages import (EventNotificationMessage, IMUInput, MessageRequest, PoseMessage,
                                            Timestamp)
@@ -21,18 +24,49 @@ def bound(tok):
         return v
     if k == 'T':
         return Timestamp(v)
+    if k == 'J':                                   # Python int (whole seconds)
+        return int(v) if v == int(v) else v
+    if k == 'D':
+        return np.float64(v)
+    if k == 'E':
+        return np.float32(v)
+    if k == 'K':
+        return np.int64(v) if v == int(v) else np.float64(v)
     raise ValueError(tok)
 
 
-def mk_range(a, b, c, d, t0_as_float=False):
+ARG_CHECKS = []      # (object, repr before) of every Timestamp handed to the constructor: must be unchanged at the end
+
+
+def mk_range(a, b, c, d, t0_form=''):
     absolute = None if c == '-' else (c == '1')
     if d == '-':
         t0 = None
     elif d == 'x':
         t0 = Timestamp()
+    elif 'f' in t0_form:
+        t0 = int(d) / G
+    elif 'i' in t0_form and int(d) % 8 == 0:
+        t0 = int(d) // 8
+    elif 'n' in t0_form:
+        t0 = np.float64(int(d) / G)
     else:
-        t0 = int(d) / G if t0_as_float else Timestamp(int(d) / G)
-    return TimeRange(start=bound(a), end=bound(b), absolute=absolute, p1_t0=t0)
+        t0 = Timestamp(int(d) / G)
+    st, en = bound(a), bound(b)
+    for x in (st, en, t0):
+        if isinstance(x, Timestamp):
+            ARG_CHECKS.append((x, repr(x.seconds)))
+    if absolute is None and 'o' in t0_form:          # `absolute` omitted altogether rather than passed as None
+        return TimeRange(start=st, end=en, p1_t0=t0)
+    if 'p' in t0_form:                               # positional arguments
+        return TimeRange(st, en, absolute, t0)
+    return TimeRange(start=st, end=en, absolute=absolute, p1_t0=t0)
+
+
+def args_intact():
+    ok = all(repr(x.seconds) == before for x, before in ARG_CHECKS)
+    del ARG_CHECKS[:]
+    return ok
 
 
 def mk_msg(tok):
@@ -83,6 +117,36 @@ def state(r):
     return ' '.join([b('_in_range_started'), b('_in_range_ended'), g('p1_t0'), g('start'), g('end'), b('absolute')])
 
 
+def msg_sig(m):
+    if not hasattr(m, 'get_p1_time'):
+        return repr(m)
+    t = m.get_p1_time()
+    return (type(m).__name__, None if t is None else repr(t.seconds), repr(m.get_system_time_ns()))
+
+
+def one_message(r, tok, with_ts=False):
+    m = mk_msg(tok)
+    before = msg_sig(m)
+    if with_ts:
+        res = r.is_in_range(m, return_timestamps=True)
+        v = res[0]
+        want_p1 = m.get_p1_time() if hasattr(m, 'get_p1_time') else None
+        want_sys = m.get_system_time_ns() if hasattr(m, 'get_system_time_ns') else None
+        if len(res) != 3 or res[1] is not want_p1 or repr(res[2]) != repr(want_sys):
+            raise AssertionError('return_timestamps returned %r for %s' % (res[1:], tok))
+    else:
+        v = r.is_in_range(m)
+    if not isinstance(v, (bool, np.bool_)):
+        raise AssertionError('is_in_range returned %r' % (v,))
+    if msg_sig(m) != before:
+        raise AssertionError('message %s was modified by is_in_range' % tok)
+    return '1' if v else '0'
+
+
+def getters(r):
+    return ('1' if r.is_specified() else '0') + ('1' if r.in_range_started() else '0')
+
+
 def apply_ops(r, ops, with_ts=False):
     out = []
     if ops != '-':
@@ -90,21 +154,101 @@ def apply_ops(r, ops, with_ts=False):
             if tok == 'r':
                 r.restart()
             else:
-                m = mk_msg(tok)
-                if with_ts:
-                    res = r.is_in_range(m, return_timestamps=True)
-                    v = res[0]
-                else:
-                    v = r.is_in_range(m)
-                out.append('1' if v else '0')
-    return (''.join(out) or '-') + '|' + state(r)
+                out.append(one_message(r, tok, with_ts))
+    if not args_intact():
+        raise AssertionError('a Timestamp passed to the constructor was modified')
+    return (''.join(out) or '-') + ';' + getters(r) + '|' + state(r)
+
+
+def snap(o):
+    """everything the object holds, by value (Timestamps as their seconds)"""
+    return repr(sorted((k, repr(v.seconds) if isinstance(v, Timestamp) else repr(v)) for k, v in vars(o).items()))
+
+
+def history(w):
+    n = int(w[1])
+    objs = {i: mk_range(*w[2 + 4 * i:6 + 4 * i]) for i in range(n)}
+    out = []
+    for st in w[2 + 4 * n].split(','):
+        c, rest = st[0], st[1:]
+        # a step on a name that an earlier refused (ValueError) step did not create is skipped
+        used = [int(rest.split('.')[0])] + ([int(rest.split('.')[1])] if c == 'x' else [])
+        if any(u not in objs for u in used):
+            out.append('~'); continue
+        if c == 'm':
+            i, _, tok = rest.partition('.')
+            r = objs[int(i)]
+            if tok == 'r':
+                r.restart(); out.append('.')
+            else:
+                out.append(one_message(r, tok))
+            continue
+        f = rest.split('.')
+        if c == 'x':
+            i, j, k, ip = map(int, f)
+            a, b = objs[i], objs[j]
+            sa, sb = snap(a), snap(b)
+            try:
+                res = a.intersect(b) if ip else a.intersect(b, in_place=False)
+            except ValueError:
+                out.append('E' + ('M' if (snap(a), snap(b)) != (sa, sb) and a is not b else ''))
+                continue
+            objs[k] = res
+            fl = ('s' if res is a else '') + ('o' if res is b and b is not a else '')
+            if a is not b and snap(b) != sb:
+                fl += 'M'
+            if not ip and res is not a and snap(a) != sa:
+                fl += 'M'
+            out.append('.' + fl)
+        elif c == 'a':
+            r = objs[int(f[0])]
+            t = None if f[1] == '-' else Timestamp(int(f[1]) / G)
+            try:
+                res = r.make_absolute(t)
+                out.append('.' if res is r else '.?')
+            except ValueError:
+                out.append('E')
+        elif c == 'b':
+            r = objs[int(f[0])]
+            t = None if f[2] == '-' else Timestamp(int(f[2]) / G)
+            sa = snap(r)
+            try:
+                res = r.make_absolute(t, in_place=False)
+            except ValueError:
+                out.append('E' + ('M' if snap(r) != sa else ''))
+                continue
+            objs[int(f[1])] = res
+            out.append('.' + ('s' if res is r else '') + ('M' if snap(r) != sa else ''))
+        elif c in 'cd':
+            r = objs[int(f[0])]
+            sa = snap(r)
+            res = copy.copy(r) if c == 'c' else copy.deepcopy(r)
+            objs[int(f[1])] = res
+            out.append('.' + ('s' if res is r else '') + ('M' if snap(r) != sa or snap(res) != sa else ''))
+        elif c == 'q':
+            r = objs[int(f[0])]
+            ab = None if f[2] == '-' else (f[2] == '1')
+            try:
+                res = TimeRange.parse(r) if ab is None else TimeRange.parse(r, absolute=ab)
+            except ValueError:
+                out.append('E'); continue
+            objs[int(f[1])] = res
+            out.append('.' + ('s' if res is r else ''))
+        else:
+            raise ValueError(st)
+    if not args_intact():
+        raise AssertionError('a Timestamp passed to the constructor was modified')
+    names = sorted(objs)
+    return ','.join(out) + ';' + ''.join(getters(objs[k]) for k in names) + '|' + '/'.join(state(objs[k]) for k in names)
 
 
 def handle(w):
     cmd = w[0]
     if cmd == 'R':
         a, b, c, d, ops, flags = w[1:7]
-        return apply_ops(mk_range(a, b, c, d, 'f' in flags), ops, 't' in flags)
+        return apply_ops(mk_range(a, b, c, d, flags), ops, 't' in flags)
+    if cmd == 'H':
+        return history(w)
     if cmd == 'I':
         A = mk_range(*w[1:5]); B = mk_range(*w[5:9]); inplace, ops = w[9], w[10]
         try:
@@ -135,7 +279,14 @@ def handle(w):
     if cmd == 'Q':
         a, b, ty, ab, ops = w[1:6]
         ab = None if ab == '-' else (ab == '1')
+        form = w[6] if len(w) > 6 else '-'
         t = (bound(a), bound(b)) if ty == '-' else (bound(a), bound(b), bytes.fromhex(ty).decode('latin1'))
+        if '1' in form:
+            t = (bound(a),)                 # one-element tuple: start only (the line must carry end = N, no type)
+        if '4' in form:
+            t = tuple(t) + ('abs', 'abs')[:4 - len(t)]
+        if 'l' in form:
+            t = list(t)
         try:
             r = TimeRange.parse(t, absolute=ab)
         except ValueError:
